@@ -38,15 +38,23 @@ def triple(x):
     return [0, int(x), 1]
 
 
-def wide_entry(col, x, ref):
+def wide_entry(col, x, ref, mean_ref=None):
     """wide-value family: exact integers as decimal strings; mean/var/std compared with the reference by the
-    float bridge (1e-9 relative) - equal labels iff close"""
+    float bridge - equal labels iff close.  Tolerance: 1e-9 relative to the value PLUS, for var and std, 1e-11 of the
+    largest intermediate of the documented block-combine formula sum_squares/n - (sum/n)^2, i.e. of mean^2 (a zone of
+    values 30000 +- 10 has var ~ 30 computed as a difference of two numbers ~ 9e8: rounding alone moves it by ~ 1e-7)"""
     if x is None:
         return [1, 0, 1, ""]
     if col in ("max", "min", "sum", "count"):
         return [4, 0, 1, repr(int(round(x))) if abs(x - round(x)) <= 1e-6 * max(1.0, abs(x)) else "frac:%r" % x]
-    if ref is not None and abs(x - ref) <= 1e-9 * max(1.0, abs(ref)):
-        return [4, 0, 1, "close_to_numpy"]
+    if ref is not None:
+        slack = 1e-11 * (mean_ref * mean_ref) if (mean_ref is not None and col in ("var", "std")) else 0.0
+        if col == "std":
+            ok = abs(x * x - ref * ref) <= 2e-9 * max(1.0, ref * ref) + slack
+        else:
+            ok = abs(x - ref) <= 1e-9 * max(1.0, abs(ref)) + slack
+        if ok:
+            return [4, 0, 1, "close_to_numpy"]
     return [4, 0, 1, "value:%r" % x]
 
 
@@ -59,12 +67,23 @@ def norm_table(t, kind, wide=False, ref=None):
         for i, r in enumerate(t["rows"]):
             rr = ref["rows"][i]["raw"] if (ref is not None and i < len(ref["rows"])) else [None] * len(cols)
             cells = []
+            # the zone's mean (from the reference row: sum / count when both are there, else the mean column)
+            mref = None
+            if ref is not None and i < len(ref["rows"]):
+                named = dict(zip(cols, rr))
+                if named.get("mean") is not None:
+                    mref = named["mean"]
+                elif named.get("sum") is not None and named.get("count"):
+                    mref = named["sum"] / named["count"]
+                elif named.get("max") is not None:
+                    mref = named["max"]
             for j, c in enumerate(cols):
                 x = r["raw"][j]
                 if ref is None and c not in ("max", "min", "sum", "count"):
                     cells.append([1, 0, 1, ""] if x is None else [4, 0, 1, "close_to_numpy"])
                 else:
-                    cells.append(wide_entry(c, x, rr[j]))
+                    cells.append(wide_entry(c, x, rr[j], mref if mref is not None else (
+                        max(abs(v) for v in rr if v is not None) if any(v is not None for v in rr) else None)))
             rows.append({"zone2": r["zone2"] if isinstance(r["zone2"], int) else -777777, "cells": cells})
         return {"columns": cols, "rows": rows}
     if kind == "stats":
@@ -98,7 +117,10 @@ def gen_jobs(ctx, rng):
     nras = 14 if quick else 70
     for ri in range(nras):
         H, W = rng.choice([(2, 3), (3, 3), (3, 4), (4, 4), (4, 5), (2, 6)])
-        zalpha = rng.choice([[1, 2, 3], [1, 2, 3.5, -1], [0, 5, 7, "nan"], [1, 2, "nan", -1.5, 4]])
+        # zone alphabets are cycled too; the last one holds -inf / +inf zone cells (never a zone: a block task that
+        # maps cells to zones by position instead of by value files them under the first / last zone)
+        zalphas = [[1, 2, 3], [1, 2, 3.5, -1], [0, 5, 7, "nan"], [1, 2, "nan", -1.5, 4], [1, 2, "-inf", "inf", 3]]
+        zalpha = zalphas[(ri // 2) % len(zalphas)]
         zones = [[rng.choice(zalpha) for _ in range(W)] for _ in range(H)]
         if not any(isinstance(v, (int, float)) for row in zones for v in row):
             zones[0][0] = 1
@@ -181,8 +203,10 @@ def gen_jobs(ctx, rng):
     # do not fit the input dtype) and large floats; exact statistics compared exactly, mean/var/std by the float
     # bridge (1e-9 relative to the NumPy backend's value)
     for (dt, lo, hi) in [("int8", -100, 100), ("uint8", 100, 250), ("int16", 200, 3000), ("uint16", 30000, 60000),
-                         ("int32", 50000, 60000), ("int64", 10 ** 6, 3 * 10 ** 6), ("float64", 10 ** 5, 10 ** 6)][
-                             : (7 if not quick else 7)]:
+                         ("int32", 50000, 60000), ("int64", 10 ** 6, 3 * 10 ** 6), ("float64", 10 ** 5, 10 ** 6),
+                         # large offset, small spread: std below 1e-3 of the mean (a combiner that treats the two
+                         # terms of sum_squares - sum^2/n as "close" zeroes the variance there)
+                         ("int32", 500, 504), ("float64", 30000, 30021)]:
         H, W = rng.choice([(4, 6), (6, 6), (5, 8)])
         zones = [[rng.choice([1, 2, 3]) for _ in range(W)] for _ in range(H)]
         values = [[rng.randrange(lo, hi) for _ in range(W)] for _ in range(H)]
